@@ -1278,7 +1278,7 @@ class tensor:
             return self.copy()
 
         # Check for special case of an order-1 object, has no effect
-        if (order == 1).all():
+        if self.ndims == 1 and (order == 1).all():
             return self.copy()
 
         if not np.array_equal(np.sort(order), np.arange(self.ndims)):
